@@ -1096,6 +1096,10 @@ def theorems_or_skip(chk, module, theorems, env):
     extra = {'Properties.C06': e2e_theorems.THEOREMS_C06, 'Properties.C03': e2e_theorems.THEOREMS_C03}.get(module)
     if extra:
         chk.require_theorems('Properties.E2E', extra)    # end-to-end composition (string level)
+    from harness import e2e_aln_theorems
+    extra2 = {'Properties.C06': e2e_aln_theorems.THEOREMS_C06, 'Properties.C03': e2e_aln_theorems.THEOREMS_C03}.get(module)
+    if extra2:
+        chk.require_theorems('Properties.E2E_aln', extra2)   # the same with alignment markers (no layout_only restriction)
 
 
 def driver_exe(chk):
